@@ -6,7 +6,7 @@ use serde_json::{json, Map, Value};
 
 use crate::build::BuildCase;
 use crate::front::{hex, unhex, Fin, Front, Item, Op, TaskSpec, Via};
-use crate::mem::{KeyFamily, MemBuildCase, MemReadCase};
+use crate::mem::{DeltaCase, KeyFamily, MemBuildCase, MemReadCase};
 use crate::multi::{FromIterCase, MKind, MTask, MemFront, MultiCase};
 use crate::payload::PayloadCase;
 use crate::restart::{Base, CorruptCase, Mutation};
@@ -21,6 +21,7 @@ pub enum Case {
     MemBuild(MemBuildCase),
     MemRead(MemReadCase),
     FromIter(FromIterCase),
+    Delta(DeltaCase),
 }
 
 impl Case {
@@ -33,6 +34,7 @@ impl Case {
             Case::MemBuild(_) => "mem_build",
             Case::MemRead(_) => "mem_read",
             Case::FromIter(_) => "from_iter_history",
+            Case::Delta(_) => "address_delta_boundary",
         }
     }
 }
@@ -230,6 +232,7 @@ pub fn plan_to(p: &Plan) -> Value {
         "flips": Value::Array(p.flips.iter().map(|f| json!({"after_event": f.after_event, "pos": f.pos, "xor": f.xor})).collect()),
         "fault_at_write_call": match &p.fault_write { None => Value::Null, Some((i, st)) => json!({"index": i, "outcome": wstep_to(st)}) },
         "fault_at_flush_call": match &p.fault_flush { None => Value::Null, Some((i, k)) => json!({"index": i, "err": k.name()}) },
+        "native_vectored_writes": p.vectored,
     })
 }
 pub fn plan_from(v: &Value) -> R<Plan> {
@@ -283,6 +286,7 @@ pub fn plan_from(v: &Value) -> R<Plan> {
         flips,
         fault_write,
         fault_flush,
+        vectored: v.get("native_vectored_writes").and_then(|x| x.as_bool()).unwrap_or(false),
     })
 }
 
@@ -498,6 +502,7 @@ pub fn case_to(c: &Case) -> Value {
             "sink": shape_to(&Some((m.shape, 0))),
             "one_extend_iter_call": m.bulk,
         }}),
+        Case::Delta(d) => json!({"address_delta_boundary": {"target_delta": d.target, "seed": d.seed.to_string()}}),
         Case::FromIter(f) => json!({"from_iter": {"entry_point": f.entry.name(), "items": items_to(&f.items)}}),
         Case::MemRead(m) => json!({"mem_read": {
             "n_small": m.n_small, "n_large": m.n_large, "fanout": m.fanout,
@@ -527,6 +532,12 @@ pub fn case_from(v: &Value) -> R<Case> {
             every: get_u64(x, "checkpoint_every")?,
             shape: shape_from(opt(x, "sink"))?.map(|s| s.0).unwrap_or(Shape::Random { short_16: 2, intr_16: 1 }),
             bulk: x.get("one_extend_iter_call").and_then(|b| b.as_bool()).unwrap_or(false),
+        }));
+    }
+    if let Some(x) = v.get("address_delta_boundary") {
+        return Ok(Case::Delta(DeltaCase {
+            target: get_u64(x, "target_delta")?,
+            seed: get_str(x, "seed")?.parse().map_err(|_| "seed")?,
         }));
     }
     if let Some(x) = v.get("from_iter") {
